@@ -304,6 +304,12 @@ where
         Sqx: Data<Elem = Sd::Elem>,
         Sqy: Data<Elem = Sd::Elem>,
     {
+        assert!(
+            buffer.shape()[1..] == self.data.shape()[2..],
+            "buffer has the wrong shape, expected trailing axes: {:?}, got: {:?}",
+            &self.data.shape()[2..],
+            &buffer.shape()[1..]
+        );
         Zip::from(xs)
             .and(ys)
             .and(buffer.axis_iter_mut(Axis(0)))
